@@ -13,7 +13,7 @@
    loop per column, Python ints), so harmless rewrites of the source stay provable; a recording after the update, a
    sweep over range(nz) or range(nz - 2), a final test against nz, Kz[i] used twice in the trapezoid do not. *)
 From Coq Require Import ZArith List Field Ring Lia Bool Arith.
-From BL Require Import Base.Ops Base.Laws Model.Solver Model.KernelPy Proofs.KernelBridgeLemmas.
+From BL Require Import Base.Ops Base.Laws Model.Solver Model.KernelPy Proofs.KernelBridgeLemmas Proofs.StepProofs Proofs.ModeProofs.
 From Gen Require Import GenKernel.
 Import ListNotations.
 
@@ -78,6 +78,7 @@ Proof.
       recording levels i p q rp rq Hp Hq Hz. cbv beta iota.
       unfold step, pyget, pydiff, coef_a, coef_b, coef_c, coef_d, Tsym.
       cbn [fst snd l_Kx l_Ky l_u l_v l_Kz l_dz].
+      rewrite ?Nat.add_1_r, ?Nat.add_0_r, ?(diffs_nth O z i Hi).   (* dz[i] or z[i + 1] - z[i] *)
       apply tuple4_eq; [alg|alg|reflexivity|reflexivity]. }
   (* the final recording *)
   unfold ivp.
@@ -91,8 +92,30 @@ Proof.
   reflexivity.
 Qed.
 
-(* what this gives together with the model's theorem about ivp (Proofs/StepProofs.ivp_spec, C10_record): for valid
-   levels, slot k of what the CODE returns is the state of the sweep at node levels[k] *)
+(* C10 on the translated code: for a valid level levels[k] (<= nz - 1), slot k of the two arrays that the CODE returns
+   holds the state of the sweep at node levels[k], and the returned final state is the end of the sweep - whatever the
+   order of the list, with repeats, next to out-of-range entries *)
+Theorem bridge_ivp_solver_slots (p0 q0 : C O) (u v Kx Ky Kz z : list (C O)) (levels : list nat) (lx ly : C O) k d :
+  (1 <= length z)%nat ->
+  (length z - 1 <= length u)%nat -> (length z - 1 <= length v)%nat -> (length z - 1 <= length Kx)%nat ->
+  (length z - 1 <= length Ky)%nat -> (length z - 1 <= length Kz)%nat ->
+  (k < length levels)%nat -> (nth k levels 0%nat <= length z - 1)%nat ->
+  let Ls := layers_of O z (mkProf O u v Kx Ky Kz) in
+  let '(pf, qf, rp, rq) := gen_ivp_solver O (p0, q0) (u, v, Kx, Ky, Kz) z levels lx ly in
+  (pf, qf) = final O lx ly Ls (p0, q0) /\
+  length rp = length levels /\ length rq = length levels /\
+  nth k rp d = fst (nth (nth k levels 0%nat) (traj O lx ly Ls (p0, q0)) (d, d)) /\
+  nth k rq d = snd (nth (nth k levels 0%nat) (traj O lx ly Ls (p0, q0)) (d, d)).
+Proof.
+  intros Hz Hu Hv HKx HKy HKz Hk Hl. cbv zeta.
+  rewrite (bridge_ivp_solver p0 q0 u v Kx Ky Kz z levels lx ly Hz Hu Hv HKx HKy HKz).
+  pose proof (ivp_spec O L lx ly (layers_of O z (mkProf O u v Kx Ky Kz)) levels (p0, q0)) as H.
+  destruct (ivp O lx ly (layers_of O z (mkProf O u v Kx Ky Kz)) levels (p0, q0)) as [[[pf qf] rp] rq].
+  cbn [flat4 fst snd]. destruct H as (Hf & Hlp & Hlq & Hs).
+  rewrite (layers_of_length O u v Kx Ky Kz z Hu Hv HKx HKy HKz) in Hs.
+  destruct (Hs k d Hk Hl) as [Hsp Hsq].
+  split; [exact Hf|]. split; [exact Hlp|]. split; [exact Hlq|]. split; assumption.
+Qed.
 
 (* ================================================================ mean mode *)
 
@@ -107,7 +130,7 @@ Proof.
     rewrite <- (mean_fold_bridge O F q00 z Kz levels p000 col HKz Hz Hc) end.
   2:{ intros i p r Hi Hr. cbv beta iota zeta. shapes.
       recording levels i p p r r Hr Hr Hz. cbv beta iota.
-      unfold mean_update, pyget, pydiff. rewrite ?Nat.add_1_r, ?Nat.add_0_r.
+      unfold mean_update, pyget, pydiff. rewrite ?Nat.add_1_r, ?Nat.add_0_r, ?(diffs_nth O z i Hi).
       apply tuple2_eq; [alg|reflexivity]. }
   cbv zeta.
   match goal with |- context [fold_left ?F (seq 0 (length z - 1)) (p000, col)] =>
@@ -120,6 +143,27 @@ Proof.
     apply record_length'. exact Hr'. }
   recording levels (length z - 1)%nat p p r r Hr Hr Hz.
   reflexivity.
+Qed.
+
+(* C10 / C03 on the translated block: for a valid level, slot k of the mean-mode column is p000 - q00 * (trapezoidal
+   resistance up to node levels[k]) - whatever the column held before (the code presets tfftp[0, 0, 0] = p000, the
+   model starts from zeros: for valid levels the difference is overwritten) *)
+Theorem bridge_mean_mode_slots (p000 q00 : C O) (u v Kx Ky Kz z : list (C O)) (levels : list nat) (col : list (C O)) k d :
+  (1 <= length z)%nat -> (length z <= length Kz)%nat -> length col = length levels ->
+  (k < length levels)%nat -> (nth k levels 0%nat <= length z - 1)%nat ->
+  nth k (snd (gen_mean_mode O p000 q00 (u, v, Kx, Ky, Kz) z levels col)) d
+  = p000 - q00 * resistance O (diffs O z) Kz (nth k levels 0%nat).
+Proof.
+  intros Hz HKz Hc Hk Hl.
+  rewrite (bridge_mean_mode p000 q00 u v Kx Ky Kz z levels col Hz HKz Hc).
+  pose proof (mean_loop_spec O L q00 levels (diffs O z) Kz 0%nat p000 col Hc) as H. cbv zeta in H.
+  destruct H as [_ Hn]. rewrite (Hn k d Hk).
+  pose proof (mean_traj_length O L q00 (diffs O z) Kz p000) as Hlen. rewrite (diffs_length O z) in Hlen.
+  assert (Hm : Nat.min (length z - 1) (pred (length Kz)) = (length z - 1)%nat) by lia.
+  rewrite Hm in Hlen.
+  replace ((0 <=? nth k levels 0%nat)%nat && (nth k levels 0%nat <? 0 + length (mean_traj O q00 (diffs O z) Kz p000))%nat)
+    with true by (symmetry; apply andb_true_iff; split; [apply Nat.leb_le; lia|apply Nat.ltb_lt; lia]).
+  rewrite Nat.sub_0_r. apply (mean_traj_closed O L). lia.
 Qed.
 
 (* ---- the hypotheses are satisfiable: a three-node column; a level list with a repeat, an unsorted pair and an
